@@ -57,6 +57,9 @@ CLAIMED = {
 	'C11': ('other', 'operator-ladder extraction from the meta-grammar text (independent reader) vs CPython precedence; dominance of the full-consumption test; artifact sync',
 		'Decides the ladder order isomorphism for all operator tokens of py_gram.lark (violated by the walrus level: known findings F9/F9b), that parse returns only after consuming every token, and that py_rules.py is the compiled form of py_gram.lark. Ordered-choice hazards and tree equality over generated sentences are not decided.',
 		'vlib/metagram.py reader; regexp terminals read with re._parser', 'DESIGN.md §4 C11'),
+	'C16': ('other', 'structural check of the span plumbing (field provenance of EntryOfLark.source_map, pass-through of Node/Nodes.source_map) and linear normal forms of the quotation arithmetic in ErrorRender and the engine ErrorCollector',
+		'Decides only the finite, shape-visible clauses every reported span passes through: EntryOfLark.source_map files line/column/end_line/end_column of ONE object as begin/end; Node.source_map is the span of the entry at the node path, unchanged; the error quotation shifts all four components by -1, quotes the begin line, marks columns [begin, end) on single-line spans and to the end of the line otherwise with at least one caret, and replaces a tab by exactly one character; the engine ErrorCollector reports begin_line + 1, quotes lines[begin_line] and uses the same range rule. The spans themselves (tokens of the slice == tokens of the node, child inside parent) are run-time numbers of the third-party parser and are NOT decided.',
+		'lark reports 1-based positions with exclusive end column; restoration from the cache is the position-provenance clause of C15', 'DESIGN.md §4 C16'),
 	'C12': ('translation_validation', 'translation validation of shipped grammar/rule-module pairs by an independent meta-grammar reader (ast + hand-written parser)',
 		'Every rule of data/syntax/gram.lark and py_gram.lark is compared node-by-node with the tuple tree checked in as gram_rules.py / py_rules.py; exhaustive over the 83 shipped rules. Decides the two fixed-point obligations of the property on the artifacts; says nothing about generated grammars.',
 		'trusts CPython ast.literal_eval and the 150-line reader vlib/metagram.py, which is itself validated by the gram.lark == gram_rules.py fixed point', 'DESIGN.md §4 C12'),
@@ -82,7 +85,6 @@ EXTRA = {
 }
 
 NOT_APPLICABLE = {
-	'C16': 'node spans are numbers produced by the parser at run time; every clause of the statement (slice tokens == node tokens, child span inside parent, caret range) quantifies over run-time positions of all programs; the only structural clause (position fields survive the cache) is decided under C15',
 	'C18': 'the splitting helpers are character-level scanners; every law in the statement is an input/output relation over all strings, and a static re-specification of the scanner would be a proxy that fires on behaviour-preserving rewrites',
 }
 
